@@ -69,7 +69,8 @@ def version_file_text(fields):
         items = sorted(items)
     elif k == 3 and len(items) > 1:
         items = items[2:] + items[:2]
-    return "".join(f"{k_} = {v}\n" for k_, v in items)
+    eol = "\r\n" if zlib.crc32(repr(items).encode()) % 5 == 0 else "\n"       # line ends are not content
+    return "".join(f"{k_} = {v}{eol}" for k_, v in items)
 
 
 def impl_defaults(tmp, fields, via="file"):
